@@ -177,6 +177,7 @@ func (p *vPartitioner) Partition(m *ProducerMessage, n int32) (int32, error) {
 func (p *vPartitioner) RequiresConsistency() bool { return p.inner.RequiresConsistency() }
 
 func runProducerScenario(t testing.TB, rec *vRec, sc *prodScenario) {
+	rec = rec.Sub() // scoped to this scenario: stragglers of an abandoned run cannot pollute later traces
 	cfgv := sc.Cfg
 	if cfgv.NBrokers == 0 {
 		cfgv.NBrokers = 1
